@@ -641,6 +641,10 @@ func (c *checkCtx) plan() bool {
 	}()
 	switch c.prop {
 	case "C14", "C19":
+		if c.prop == "C14" {
+			c.globalsObligations(c.prop) // a checksum depends on the bytes only: Calc touches no package-level state
+			c.auxTask()
+		}
 	default:
 		if !c.didTables {
 			c.tablesTask()
@@ -676,6 +680,9 @@ func (c *checkCtx) plan() bool {
 			}
 		}
 		c.obs = kept
+		if c.prop != "C20" {
+			c.globalsObligations(c.prop)
+		}
 		c.dedupe()
 	}
 	return true
